@@ -689,8 +689,8 @@ func init() {
 			"RST) after exactly k bytes for 14-33 seeded offsets plus 0 and the end (thorough: every offset of a third of the dialogues): " +
 			"acknowledged messages present once, the fully transmitted unacknowledged one 0..1, nothing partial or phantom, session ends. " +
 			"Mode S (20%): client stalls past the idle timeout in READY/MAIL/DATA state. non-trivial = every run; distinct by (mode, #acknowledged, steps)",
-		Real: []string{"pkg/server/smtp", "pkg/message", "pkg/policy", "pkg/storage/mem", "pkg/storage/file", "net/textproto"},
-		Stub: []string{"TCP (simnet) with cut at byte k (FIN/RST), stall", "scheduler", "clock", "disk"},
+		Real:        []string{"pkg/server/smtp", "pkg/message", "pkg/policy", "pkg/storage/mem", "pkg/storage/file", "net/textproto"},
+		Stub:        []string{"TCP (simnet) with cut at byte k (FIN/RST), stall", "scheduler", "clock", "disk"},
 		Assumptions: []string{"TLS is never enabled (STARTTLS must be refused)", "default accept/store policy, local naming"},
 	})
 }
